@@ -223,7 +223,8 @@ def _kernel(chk, wh):
         if isinstance(st, ast.Assign):
             mm = [x for x in ast.walk(st.value) if isinstance(x, ast.BinOp) and isinstance(x.op, ast.MatMult)]
             if mm:
-                ops = _matmul_operands(st.value)
+                from .common import inline_locals as _il2
+                ops = _matmul_operands(_il2(f2, st.value))
                 if len(ops) == 3:
                     node = st
                     t0, c0, b0 = _operand_chain(ops[0])
